@@ -98,13 +98,16 @@ def report_once(ctx, sig, what, rep, limit=2):
         ctx.spec_violation(sig, what, rep)
 
 
-def safe_eval(ctx, exprs, imports, tag, shard, per_shard_timeout=150, single_timeout=45):
+def safe_eval(ctx, exprs, imports, tag, shard, per_shard_timeout=None, single_timeout=None):
     """ctx.coq_eval that never raises and never waits long: a shard that fails or times out is re-run one
     expression per file; an expression that still fails yields None"""
     import concurrent.futures
     import coqrun
     if not exprs:
         return []
+    # bounded either way; the thorough tier has 12-cycle wide designs (~10 s of coqc each on an idle core)
+    per_shard_timeout = per_shard_timeout or (150 if ctx.tier == 'quick' else 600)
+    single_timeout = single_timeout or (45 if ctx.tier == 'quick' else 240)
     shards = [(k, exprs[k:k + shard]) for k in range(0, len(exprs), shard)]
     out = [None] * len(exprs)
 
@@ -989,7 +992,7 @@ def collide(ctx, sig, what):
 
 def run(ctx):
     _reported.clear()
-    sizes = (28, 6, 12, 6, 8, 10) if ctx.tier == "quick" else (760, 60, 120, 40, 60, 60)
+    sizes = (28, 6, 12, 6, 8, 10) if ctx.tier == "quick" else (520, 40, 80, 30, 40, 40)
     tb_jobs = module_cases(ctx, *sizes)
     testbench_cases(ctx, tb_jobs)
     targeted(ctx)
